@@ -14,6 +14,15 @@ def run_fsearch(ctx):
     return fams
 
 
+def run_funlink(ctx):
+    """Engine C, F-UNLINK: the first-bucket protocol of deletions in _BTree_set (cvc/funlink.py)."""
+    fams = ["II", "OO"] if ctx.tier == "quick" else ["II", "OO", "LF", "QQ", "fs"]
+    res = ctx.cvc(fams, ["F-UNLINK"], functions=["_BTree_set"])
+    from lib import replay
+    replay.replay_funlink(ctx, res)
+    return fams
+
+
 def py_targets(prop):
     from pyvc.run import all_contracts
     cons = all_contracts()
